@@ -11,7 +11,7 @@
     status word, the outgoing word is the incoming one OR-ed with what was raised;
   * `tiny_after_outcome` — the wrapper returns exactly the value `E` returns for (x, y, z) from a clear word (so C02's VALUE
     clause in this configuration reduces to that of `E`), and its raised set differs from `E`'s at most in the underflow bit,
-    and not at all unless `E` raised inexact and delivered ±1E−6143 (coefficient 10^33, biased exponent 33: the words
+    and not at all unless `E` raised inexact and delivered ±1E−6143 (coefficient 10^33 at the least exponent, biased exponent field 0: the words
     `0x0000314dc6448d93`, `0x38c15b0a00000000`).
   What the theorems do not say: that the underflow bit chosen in that one case is the IEEE one (that needs the feature build's
   `E` specified; it is checked differentially, thorough tier of C02, 5 M observations per run in that configuration).
